@@ -375,6 +375,16 @@ func checkC04(r *core.Run) {
 			}
 		}
 	}
+	// a jump out of a loop body leaves the context of the jump, not that of the end of the body
+	for _, jmp := range []string{"{{break}}", "{{continue}}"} {
+		for _, e := range []string{"script", "style", "textarea", "title", "xmp"} {
+			cjobs = append(cjobs, cj{"{{range $.L}}<" + e + ">{{if $.C}}" + jmp + "{{end}}</" + e + ">{{end}}{{$.P0}}", "reject", "jump-out-of-loop-body"})
+			cjobs = append(cjobs, cj{"{{range $.L}}{{$.P0}}<" + e + ">{{if $.C}}" + jmp + "{{end}}</" + e + ">{{end}}", "reject", "jump-out-of-loop-body"})
+		}
+		for _, a := range []string{"href", "title", "onclick", "style"} {
+			cjobs = append(cjobs, cj{"{{range $.L}}<a " + a + "=\"{{if $.C}}" + jmp + "{{end}}\">x</a>{{end}}{{$.P0}}", "reject", "jump-out-of-loop-body"})
+		}
+	}
 	// an earlier attribute of the element must not weaken what a later attribute or the content demands (script type,
 	// language, link as, input type, ... are values an engine could be tempted to interpret)
 	priors := []string{`type="module"`, `type="MODULE"`, `type="text/ecmascript; charset=utf-8"`, `type="importmap"`, `type="text/html"`, `type="text/template"`, `type="text/x-template"`, `type="application/json"`,
